@@ -102,6 +102,52 @@ func makeImage(rng *Rand, w, h int, alpha []byte) *image.NRGBA {
 	return im
 }
 
+// placeImage stores the same picture differently: 0 NRGBA at the origin, 1 NRGBA
+// sub-image of a larger noisy parent (non-zero origin, stride padding), 2 premultiplied
+// RGBA at the origin, 3 premultiplied RGBA sub-image. The alpha channel is the same in all.
+func placeImage(rng *Rand, src *image.NRGBA, placement int) image.Image {
+	b := src.Bounds()
+	w, h := b.Dx(), b.Dy()
+	switch placement {
+	case 1:
+		ox, oy := 1+rng.Intn(5), 1+rng.Intn(5)
+		parent := image.NewNRGBA(image.Rect(0, 0, w+ox+1+rng.Intn(6), h+oy+1+rng.Intn(3)))
+		for i := range parent.Pix {
+			parent.Pix[i] = byte(rng.U64())
+		}
+		sub := parent.SubImage(image.Rect(ox, oy, ox+w, oy+h)).(*image.NRGBA)
+		for y := 0; y < h; y++ {
+			for x := 0; x < w; x++ {
+				sub.SetNRGBA(ox+x, oy+y, src.NRGBAAt(x, y))
+			}
+		}
+		return sub
+	case 2, 3:
+		ox, oy := 0, 0
+		pw, ph := w, h
+		if placement == 3 {
+			ox, oy = 1+rng.Intn(5), 1+rng.Intn(5)
+			pw, ph = w+ox+1+rng.Intn(6), h+oy+1+rng.Intn(3)
+		}
+		parent := image.NewRGBA(image.Rect(0, 0, pw, ph))
+		for i := range parent.Pix {
+			parent.Pix[i] = byte(rng.U64())
+		}
+		for y := 0; y < h; y++ {
+			for x := 0; x < w; x++ {
+				p := src.NRGBAAt(x, y)
+				a := uint32(p.A)
+				parent.SetRGBA(ox+x, oy+y, color.RGBA{uint8(uint32(p.R) * a / 255), uint8(uint32(p.G) * a / 255), uint8(uint32(p.B) * a / 255), p.A})
+			}
+		}
+		if placement == 3 {
+			return parent.SubImage(image.Rect(ox, oy, ox+w, oy+h))
+		}
+		return parent
+	}
+	return src
+}
+
 // alphaOf returns the alpha plane of a decoded image (255 for images without alpha).
 func alphaOf(im image.Image) []byte {
 	b := im.Bounds()
@@ -190,7 +236,10 @@ func publicCase(c *Ctx, rng *Rand, w, h int, pat alphaPattern, method, acomp, af
 	if n, lo, _ := distinct(alpha); n == 1 && lo == 255 {
 		pat = patOpaque // the drawn mask happens to cover everything
 	}
-	im := makeImage(rng, w, h, alpha)
+	var im image.Image = makeImage(rng, w, h, alpha)
+	placement := rng.Intn(4)
+	im = placeImage(rng, im.(*image.NRGBA), placement)
+	c.Count(fmt.Sprintf("placement:%d", placement))
 	q := float32(rng.Pick(0, 30, 75, 90, 100))
 	opts := &webp.EncoderOptions{Lossless: false, Quality: q, Method: method, AlphaCompression: acomp,
 		AlphaFiltering: afilt, AlphaQuality: aqual, Exact: exact,
@@ -244,7 +293,7 @@ func publicCase(c *Ctx, rng *Rand, w, h int, pat alphaPattern, method, acomp, af
 	if nSrc <= 16 {
 		levelClass = "le16"
 	}
-	c.Nontrivial(fmt.Sprintf("%s/m%d/c%d/f%d/q%v/%s/%v", patNames[pat], method, acomp, afilt, exactMode, levelClass, exact))
+	c.Nontrivial(fmt.Sprintf("%s/m%d/c%d/f%d/q%v/%s/%v/p%d", patNames[pat], method, acomp, afilt, exactMode, levelClass, exact, placement))
 	alphChunk, hasALPH := findChunk(buf.Bytes(), "ALPH")
 	if pat == patOpaque {
 		if hasALPH {
